@@ -1,4 +1,5 @@
 import KanidmProofs.Lemmas.SyncScopeHistory
+import KanidmProofs.Lemmas.SyncScopeMasked
 import KanidmProofs.C24
 /-
 C50 — Synchronisation agreements stay inside their own scope.
@@ -252,6 +253,31 @@ theorem masked_ids_refused (sch : Schema) (id : Ident) (st : State) (req : Reque
   apply hm e he
   rw [mem_ceIds_changeEntries, heq]
   exact List.mem_map.mpr ⟨s, hs, rfl⟩
+
+/-- **Recycled and tombstoned entries are never touched — not even the agreement's own.** Every
+stored entry that is not live is, after an accepted request, stored at the same position and equal
+in every field. (Together with `masked_ids_refused` and the `life` clause of `OwnedChange`: a
+deleted id can neither be changed, nor re-created, nor revived by an agreement.) -/
+theorem sync_never_touches_masked (sch : Schema) (id : Ident) (st : State) (req : Request)
+    (st' : State) (h : apply sch id st req = .ok st') :
+    ∀ (i : Nat) (hi : i < st.length), st[i].life ≠ .live →
+      ∃ hi' : i < st'.length, st'[i] = st[i] := by
+  obtain ⟨pre', news, he, r⟩ := apply_keepMasked sch id st req st' h
+  have hl := r.length_eq
+  intro i hi hnl
+  have hip : i < pre'.length := by omega
+  have hi' : i < st'.length := by rw [he, List.length_append]; omega
+  refine ⟨hi', ?_⟩
+  have hget : st'[i] = pre'[i] := by
+    subst he
+    exact List.getElem_append_left hip
+  rw [hget]
+  apply r.get i hi hip
+  unfold Entry.masked
+  cases hlife : st[i].life with
+  | live => exact absurd hlife hnl
+  | recycled => rfl
+  | tombstone => rfl
 
 /-! ### the full statement about attributes is false of the code (known finding D39) -/
 
@@ -694,6 +720,10 @@ example : apply sch id st2 (reqFor (2 ^ 48)) =
          { uuid := 2 ^ 48, life := .live, classes := [C.Object, C.SyncObject, C.Account],
            syncParent := some (600 + 2 ^ 48), extId := some 4, syncClasses := [C.Account],
            cookie := none, yieldAuth := none, attrs := [(A.Name, [3])] }] := by rfl
+
+/-- `sync_never_touches_masked`: position 5 (the agreement's own recycled entry) in every accepted
+request above is `recycled` itself -/
+example : (apply sch id st2 (reqFor (2 ^ 48))).toOption.map (·[5]?) = some (some recycled) := by decide
 
 /-- `sync_needs_synch_identity`: the same request with a read-write scope, or from a user -/
 example : apply sch ⟨.synch (600 + 2 ^ 48), .readWrite⟩ st2 (reqFor (2 ^ 48)) = .error .accessDenied := by
